@@ -240,3 +240,12 @@ Definition w_good : list event :=
 (** every event of a history satisfies [ok] where it is executed *)
 Fixpoint all_ok (st : sys) (evs : list event) : bool :=
   match evs with [] => true | e :: r => ok st e && all_ok (step st e) r end.
+
+(** a history with its ghost multisets, and the check that every event satisfies [ok_cons] *)
+Fixpoint gtrace (st : sys) (P R : list elem) (evs : list event) : sys * list elem * list elem :=
+  match evs with
+  | [] => (st, P, R)
+  | e :: r => gtrace (step st e) (P ++ pushed_in st e) (R ++ returned_in st e) r
+  end.
+Fixpoint all_ok_cons (st : sys) (evs : list event) : bool :=
+  match evs with [] => true | e :: r => ok_cons st e && all_ok_cons (step st e) r end.
